@@ -223,4 +223,9 @@ def run(ctx, b, broken):
             su.violation(text, bad)
         elif len(ctx.samples) < 4 and h.shadow and h.exits:
             ctx.sample({"text": text[:400]})
+    # hand-written programs (rarely used productions): model and implementation must agree on each, tree and coordinates
+    for text, _valid in ZOO:
+        ctx.evaluations += 1
+        ctx.count("suite:zoo")
+        su.corr(text, impl_parse(text), tag="hand-written programs")
     su.finish()
